@@ -34,6 +34,9 @@ pub enum Term {
     IntoSplitD,
     IntoSplitL,
     IntoFixed,
+    /// SplitVec<Linear> with fragments of 4 elements: only with sources of known length (a map-only collect
+    /// from a source of unknown length reserves 2^32 elements = 2^30 such fragments)
+    IntoSplitL2,
     Count,
     ForEach,
     Reduce,
@@ -55,7 +58,7 @@ pub enum Term {
     Build,
 }
 
-pub const ALL_TERMS: [(Term, &str); 25] = [
+pub const ALL_TERMS: [(Term, &str); 26] = [
     (Term::CollectVec, "collect_vec"),
     (Term::Collect, "collect"),
     (Term::CollectX, "collect_x"),
@@ -63,6 +66,7 @@ pub const ALL_TERMS: [(Term, &str); 25] = [
     (Term::IntoSplitD, "into_splitd"),
     (Term::IntoSplitL, "into_splitl"),
     (Term::IntoFixed, "into_fixed"),
+    (Term::IntoSplitL2, "into_splitl2"),
     (Term::Count, "count"),
     (Term::ForEach, "for_each"),
     (Term::Reduce, "reduce"),
@@ -91,10 +95,10 @@ impl Term {
         ALL_TERMS.iter().find(|x| x.1 == s).map(|x| x.0)
     }
     pub fn is_collect_ordered(self) -> bool {
-        matches!(self, Term::CollectVec | Term::Collect | Term::IntoVec | Term::IntoSplitD | Term::IntoSplitL | Term::IntoFixed)
+        matches!(self, Term::CollectVec | Term::Collect | Term::IntoVec | Term::IntoSplitD | Term::IntoSplitL | Term::IntoFixed | Term::IntoSplitL2)
     }
     pub fn is_collect_into(self) -> bool {
-        matches!(self, Term::IntoVec | Term::IntoSplitD | Term::IntoSplitL | Term::IntoFixed)
+        matches!(self, Term::IntoVec | Term::IntoSplitD | Term::IntoSplitL | Term::IntoFixed | Term::IntoSplitL2)
     }
     pub fn is_short_circuit(self) -> bool {
         matches!(self, Term::Find | Term::First | Term::Any | Term::All | Term::FindIdx | Term::FirstIdx)
@@ -174,6 +178,14 @@ impl Visit for TermV {
             }
             Term::IntoSplitL => {
                 let mut t: SplitVec<Q::Item, Linear> = SplitVec::with_linear_growth(14);
+                for x in <Q::Item as Item>::prefix(self.prefix) {
+                    t.push(x);
+                }
+                let v = q.collect_into(t);
+                TermResult::Ids(ids(v.iter()))
+            }
+            Term::IntoSplitL2 => {
+                let mut t: SplitVec<Q::Item, Linear> = SplitVec::with_linear_growth(2);
                 for x in <Q::Item as Item>::prefix(self.prefix) {
                     t.push(x);
                 }
